@@ -120,15 +120,17 @@ def spec(headers, valid, payload_ok, payload):
     return raw, unp
 
 
-def serialise(raw):
+def serialise(raw, spell=None):
+    """the serialiser of the property statement; spell(header) gives the capitalisation of ONE header line (default: Title-Case)"""
+    sp = spell or (lambda h: h)
     out = []
     for k, v in raw.items():
         h = INV[k].title()
-        if k in LIST: out += ["%s: %s" % (h, x) for x in v]
-        elif k == "keywords": out.append("%s: %s" % (h, ",".join(v)))
-        elif k == "project_urls": out += ["%s: %s, %s" % (h, a, b) for a, b in v.items()]
+        if k in LIST: out += ["%s: %s" % (sp(h), x) for x in v]
+        elif k == "keywords": out.append("%s: %s" % (sp(h), ",".join(v)))
+        elif k == "project_urls": out += ["%s: %s, %s" % (sp(h), a, b) for a, b in v.items()]
         elif k == "description": continue
-        else: out.append("%s: %s" % (h, v))
+        else: out.append("%s: %s" % (sp(h), v))
     s = "".join(l + "\n" for l in out)
     if "description" in raw: s += "\n" + raw["description"]
     return s
@@ -155,6 +157,13 @@ def observe(cmd, args):
         kind = "s" if args[0][:1] == "X" else "b"
         raw, unparsed = parse_email(source(kind, args[0][1:]))
         return show_result(raw, unparsed)
+    if cmd == "e.lines":
+        # what the email package delivers for a str document: (name, value) pairs in order and the body
+        toks = extract(args[0])
+        out = []
+        for i in range(0, len(toks) - 1, 2):
+            out.append(show_s(toks[i][1:]) + "=" + ("" if toks[i + 1][0] == "V" else "!") + show_s(toks[i + 1][1:]))
+        return ";".join(out) + "|" + (show_s(toks[-1][1:]) if toks[-1][0] == "Y" else "!")
     if cmd == "law.e.spec":
         # the statement read directly: partition, no loss / no invention, typing, description rule - on the implementation's answer
         data = source(args[0], args[1])
@@ -185,5 +194,34 @@ def observe(cmd, args):
         for data in (s, s.encode("utf8")):
             got = parse_email(data)
             if got != (raw, {}): return "serialised %r (%s) parses to %r" % (s, type(data).__name__, got)
+        return "ok"
+    if cmd == "law.e.roundtrip2":
+        rng = random.Random(int(args[0]))
+        raw = decode_raw(args[1:])
+        s = serialise(raw, lambda h: "".join(c.upper() if rng.random() < 0.5 else c.lower() for c in h))
+        for data in (s, s.encode("utf8")):
+            got = parse_email(data)
+            if got != (raw, {}): return "serialised %r (%s) parses to %r" % (s, type(data).__name__, got)
+        return "ok"
+    if cmd == "law.e.roundtrip-neg":
+        # outside the well-formedness domain the round trip does NOT hold; the observed results are pinned (str and bytes)
+        raw, want = json.loads(args[0]), json.loads(args[1])
+        s = serialise(raw)
+        for data in (s, s.encode("utf8")):
+            got = parse_email(data)
+            if [got[0], got[1]] != want: return "serialised %r (%s) parses to %r, pinned %r" % (s, type(data).__name__, got, want)
+            if got == (raw, {}): return "this dict round-trips after all: %r" % (raw,)
+        return "ok"
+    if cmd == "law.e.strbytes":
+        a = parse_email(args[0]); b = parse_email(args[0].encode("utf8"))
+        return "ok" if a == b else "str input gives %r, the same document as UTF-8 bytes gives %r" % (a, b)
+    if cmd == "law.e.pairs":
+        # the statement applied to the (name, value) list the GENERATOR wrote (value without the blanks after the colon) - no email call here
+        hs, body, text = json.loads(args[0]), args[1], args[2]
+        headers = [(n, v.lstrip(" \t")) for n, v in hs]
+        want = spec(headers, {n.lower(): True for n, _ in hs}, True, body)
+        for data in (text, text.encode("utf8")):
+            got = parse_email(data)
+            if got != want: return "document %r (%s): parse_email gives %r, the statement gives %r" % (text, type(data).__name__, got, want)
         return "ok"
     raise KeyError(cmd)
